@@ -59,7 +59,7 @@ Definition f18_piece : bytes := bytes_of_string "TAG @t
 ".
 
 Definition expanded_of (r : tree_result) : list rdir :=
-  match r with TScanned _ _ (T2Ok _ _ ex _) => ex | _ => [] end.
+  match r with TScanned _ _ (T2Ok _ _ ex _ _) => ex | _ => [] end.
 
 Fixpoint rpreorder (fuel : nat) (ds : list rdir) : list rdir :=
   match fuel with
